@@ -52,11 +52,11 @@ Mutations == {"append", "pop", "clear", "reverse"}
 
 \* ------------------------------------------------------------------------- model checking ---
 \* (the model-checked sessions draw on a part of the universe: every state has |MCalls| successors)
-MCBumps  == DependentBumps \cup {<<"int", 1>>, <<"int", -1>>, <<"int", 2>>, <<"td", <<1, 0, 0>>>>, T1(1, "d"), T1(1, "m"),
-                                 T1(1, "b"), T1(-1, "b"), T1(2, "b")}
+MCBumps  == DependentBumps \cup {<<"int", 1>>, <<"int", -1>>, T1(1, "m"), T1(1, "b"), T1(-1, "b"), T1(2, "b")}
+                            \cup (IF MaxCalls <= 2 THEN {} ELSE {<<"int", 2>>, <<"td", <<1, 0, 0>>>>, T1(1, "d")})   \* (the deeper, thorough run)
 MCalls   == Keep(SCalls, LAMBDA c : c[3] \in MCBumps /\ (Scope = "quick" => c[1][1] \in {A1, A3, A0 + 7}))
 MCEdits  == {<<"set_holidays", H1>>, <<"set_weekend", {4, 5}>>, <<"add_inplace", H2>>, <<"reset">>, <<"named", H1, {4, 5}>>}
-MCMutations == {"append", "clear"}
+MCMutations == IF MaxCalls <= 2 THEN {"clear"} ELSE {"append", "clear"}
 Init == SInit /\ hist = <<>>
 Next == /\ \/ \E c \in MCalls : Call(c)
            \/ \E e \in MCEdits : EditCal(e)
